@@ -155,8 +155,10 @@ def handle : Handler := fun op a =>
       | "vec" => pure (trace (vecImpl (0 : Int)) vecIntern ops)
       | "svec" => pure (trace (svecImpl 4 (0 : Int)) (svecIntern 4) ops)
       | "arr" => pure (trace (arrImpl 3 (0 : Int)) (arrIntern 3) ops)
-      | "tuple" => pure (trace (arrImpl 3 (0 : Int)) (arrIntern 3) ops)
-      | "tuplev2" => pure (trace (arrImpl 3 (0 : Int)) (arrIntern 3) ops)
+      | "tuple" | "tuplev2" =>
+        -- heterogeneous tuples carry their arity (`arity=1…12`); the homogeneous `tuple<E,E,E>` requests have none
+        let n := ((a.get? "arity").bind String.toNat?).getD 3
+        pure (trace (arrImpl n (0 : Int)) (arrIntern n) ops)
       | "small" => pure (trace (smallImpl 4 (0 : Int)) (smallIntern 4) ops)
       | _ => none
   | "ehist" => orBad do
